@@ -21,10 +21,11 @@ struct It<C: Suite> {
 pub fn run<C: Suite>(ctx: &mut Ctx) {
     let slow = C::NAME == "ed448";
     let sizes: Vec<usize> = match (ctx.quick(), slow) {
-        (true, true) => vec![0, 1, 2, 3, 5, 8],
-        (true, false) => (0..=16).collect(),
-        (false, true) => vec![0, 1, 2, 3, 4, 5, 8, 13, 16, 24, 32],
-        (false, false) => (0..=64).collect(),
+        (true, true) => vec![0, 1, 2, 3, 5, 8, 33],
+        // 31..33 and 63..65 items: 2n+1 points cross 64 / 128, where a multiscalar multiplication may change strategy
+        (true, false) => (0..=16).chain([31, 32, 33, 64]).collect(),
+        (false, true) => vec![0, 1, 2, 3, 4, 5, 8, 13, 16, 24, 32, 33, 64, 65],
+        (false, false) => (0..=66).chain([127, 128, 129, 200]).collect(),
     };
     for n in sizes {
         if !ctx.item(&format!("batch size {n}")) {
